@@ -226,10 +226,10 @@ impl LazyCreateEdge {
             .sink
             .evaluate_as_graph_node(exec)
             .with_context(|| "Evaluating edge sink".to_string().into())?;
-        let edge = match exec.graph[source].add_edge(sink) {
-            Ok(edge) | Err(edge) => edge,
-        };
-        edge.attributes = self.attributes.clone();
+        // an edge that already exists keeps its attributes
+        if let Ok(edge) = exec.graph[source].add_edge(sink) {
+            edge.attributes = self.attributes.clone();
+        }
         Ok(())
     }
 }
